@@ -533,36 +533,51 @@ inductive Framing where
 
 def allDigits (b : Bytes) : Bool := !b.isEmpty && b.all isDigit
 
+def codingsOf (te : List Bytes) : List Bytes :=
+  (te.flatMap (splitOn 44)).map (fun c => asciiLower (stripBy isOws c))
+
+/-- Transfer-Encoding checks of §6.1/§6.3 on the list of codings: `some cls` = ambiguous -/
+def teErrorC (codings : List Bytes) (version : Bytes) (kind : Kind) : Option Nat :=
+  if codings.any (fun c => !knownCodings.contains c) then some cTeUnknown
+  else if codings.count sChunked > 1 ∨ (codings.contains sChunked ∧ codings.getLast? ≠ some sChunked) then some cTeNotFinal
+  else if version ≠ sHttp11 then some cTeHttp10
+  else match kind with
+    | .response st => if (100 ≤ st && st ≤ 199) || st = 204 then some cTe1xx204 else none
+    | .request => if codings.getLast? ≠ some sChunked then some cTeReqNotChunked else none
+
+def teError (te : List Bytes) (version : Bytes) (kind : Kind) : Option Nat :=
+  if te.isEmpty then none else teErrorC (codingsOf te) version kind
+
+def clItems (cl : List Bytes) : List Bytes := (cl.flatMap (splitOn 44)).map (stripBy isOws)
+
+def clError (cl : List Bytes) : Option Nat :=
+  let items := clItems cl
+  if !cl.isEmpty && items.any (fun c => !allDigits c) then some cClMalformed
+  else if !cl.isEmpty && (items.map natOfDigits).any (fun n => some n ≠ (items.map natOfDigits).head?) then some cClConflict
+  else none
+
+def noBody (kind : Kind) (reqMethod : Bytes) : Bool :=
+  match kind with
+  | .response st => asciiUpper reqMethod = sHEAD || noBodyStatus st ||
+                    (asciiUpper reqMethod = sCONNECT && 200 ≤ st && st ≤ 299)
+  | .request => false
+
 /-- RFC 9112 §6.3 -/
 def framing (fs : List Field) (version : Bytes) (kind : Kind) (reqMethod : Bytes) : Except Err Framing :=
   let te := getAll fs sTE
   let cl := getAll fs sCL
   if !te.isEmpty && !cl.isEmpty then .error (.ambiguous cClTe) else
-  let codings := (te.flatMap (splitOn 44)).map (fun c => asciiLower (stripBy isOws c))
-  let teErr : Option Nat :=
-    if te.isEmpty then none
-    else if codings.any (fun c => !knownCodings.contains c) then some cTeUnknown
-    else if codings.count sChunked > 1 ∨ (codings.contains sChunked ∧ codings.getLast? ≠ some sChunked) then some cTeNotFinal
-    else if version ≠ sHttp11 then some cTeHttp10
-    else match kind with
-      | .response st => if (100 ≤ st && st ≤ 199) || st = 204 then some cTe1xx204 else none
-      | .request => if codings.getLast? ≠ some sChunked then some cTeReqNotChunked else none
-  match teErr with
+  match teError te version kind with
   | some c => .error (.ambiguous c)
   | none =>
-    let items := (cl.flatMap (splitOn 44)).map (stripBy isOws)
-    if !cl.isEmpty && items.any (fun c => !allDigits c) then .error (.ambiguous cClMalformed) else
-    let nums := items.map natOfDigits
-    if !cl.isEmpty && nums.any (fun n => some n ≠ nums.head?) then .error (.ambiguous cClConflict) else
-    let noBody : Bool := match kind with
-      | .response st => asciiUpper reqMethod = sHEAD || noBodyStatus st ||
-                        (asciiUpper reqMethod = sCONNECT && 200 ≤ st && st ≤ 299)
-      | .request => false
-    if noBody then .ok .none
-    else if !te.isEmpty then (if codings.getLast? = some sChunked then .ok .chunked else .ok .eof)
-    else match nums.head? with
-      | some n => .ok (.cl n)
-      | none => match kind with | .request => .ok .none | .response _ => .ok .eof
+    match clError cl with
+    | some c => .error (.ambiguous c)
+    | none =>
+      if noBody kind reqMethod then .ok .none
+      else if !te.isEmpty then (if (codingsOf te).getLast? = some sChunked then .ok .chunked else .ok .eof)
+      else match ((clItems cl).map natOfDigits).head? with
+        | some n => .ok (.cl n)
+        | none => match kind with | .request => .ok .none | .response _ => .ok .eof
 
 def isHex (c : UInt8) : Bool := isDigit c || (65 ≤ c.toNat && c.toNat ≤ 70) || (97 ≤ c.toNat && c.toNat ≤ 102)
 def hexVal (c : UInt8) : Nat := if isDigit c then c.toNat - 48 else if c.toNat ≥ 97 then c.toNat - 87 else c.toNat - 55
